@@ -110,6 +110,9 @@ structure GenesisOK (g : Genesis) : Prop where
   daoNonneg : 0 ≤ g.daoTokens
   minStakePos : powerReduction ≤ g.p.minStake
   maxValsPos : 0 < g.defaultMaxVals
+  /-- exported signing infos: a tombstoned one is jailed for ever and does not belong to a genesis validator
+  (genesis validators are staked; a convicted validator is not) -/
+  signingOK : ∀ e ∈ g.signing, e.2.tomb = true → e.2.jailedUntil = forever ∧ ∀ v ∈ g.vals, v.1 ≠ e.1
 
 /-- the message of a transaction is a deliver-mode `daoBurn` of `amt` -/
 def Msg.burnAmount : Msg → Int
